@@ -49,6 +49,9 @@ static void POnlyRef_Ref(var self, var obj) { po_calls[0]++; ((struct POnlyRef*)
 static var POnlyDeref_Deref(var self) { po_calls[1]++; return ((struct POnlyDeref*)self)->target; }
 var POnlyRef = Cello(POnlyRef, Instance(Pointer, POnlyRef_Ref, NULL));
 var POnlyDeref = Cello(POnlyDeref, Instance(Pointer, NULL, POnlyDeref_Deref));
+/* a type that declares a Current instance whose only member is EMPTY: asking for its current object is a ClassError, not a call */
+struct WrEmpty { int64_t x; };
+var WrEmpty = Cello(WrEmpty, Instance(Current, NULL), Instance(Len, NULL), Instance(Hash, NULL));
 static var* BT[NB]; static const char* BTN[NB];
 static var* CL[NC]; static const char* CLN[NC]; static int CLM[NC];     /* member counts */
 #define MAXRT 64
@@ -263,6 +266,11 @@ int main(int argc, char** argv) {
         if (current(Wr) != (var)&wr_marker || wr_calls[5] != 1) bad |= 8;
         if (strcmp(name(Wr), "WrDoc") != 0 || wr_calls[6] == 0) bad |= 16;
         if (size(Int) != sizeof(struct Int) || size(Wr) != 40) bad |= 32);
+      if (!hc_exc[0]) {          /* empty members behind the functions that take a type / an object: refused, never invoked */
+        HC_TRY(current(WrEmpty)); if (strcmp(hc_exc, "ClassError") != 0) bad |= 64;
+        HC_TRY(len($(WrEmpty, 1))); if (strcmp(hc_exc, "ClassError") != 0) bad |= 128;
+        hc_exc = "";
+      }
       ev_begin("wrappers"); ev_int("bad", bad); ev_str("exc", hc_exc); ev_end();
       continue;
     }
